@@ -43,6 +43,9 @@ pub struct DestState {
     pub interrupted: bool,
     /// a fault was delivered to a seek or a flush
     pub fault_nonwrite: bool,
+    /// the failing write accepts nothing and says so (Ok(0), what a full fixed-size buffer does) instead of
+    /// returning an error: write_all turns that into ErrorKind::WriteZero
+    pub zero_mode: bool,
 }
 
 pub fn injected() -> io::Error {
@@ -92,6 +95,9 @@ impl LogDest {
     }
     pub fn set_interrupted(&self, on: bool) {
         self.0.borrow_mut().interrupted = on;
+    }
+    pub fn set_zero_mode(&self, on: bool) {
+        self.0.borrow_mut().zero_mode = on;
     }
     pub fn fault_nonwrite(&self) -> bool {
         self.0.borrow().fault_nonwrite
@@ -161,6 +167,9 @@ impl Write for LogDest {
             return Ok(0);
         }
         if s.fault() {
+            if s.zero_mode {
+                return Ok(0);
+            }
             let n = s.partial.min(buf.len().saturating_sub(1));
             if n > 0 {
                 // a partial write followed by the error on the rest: report the bytes first
@@ -291,6 +300,8 @@ pub struct SrcState {
     /// failing seeks report ErrorKind::Interrupted (reads never do: read_exact retries those by contract)
     pub interrupted: bool,
     pub fault_on_seek: bool,
+    /// the kind a failing READ reports (never Interrupted: read_exact retries that one by contract)
+    pub read_kind: Option<io::ErrorKind>,
 }
 
 #[derive(Clone)]
@@ -314,6 +325,9 @@ impl LogSource {
     }
     pub fn set_interrupted(&self, on: bool) {
         self.0.borrow_mut().interrupted = on;
+    }
+    pub fn set_read_kind(&self, k: io::ErrorKind) {
+        self.0.borrow_mut().read_kind = Some(k);
     }
     pub fn fault_on_seek(&self) -> bool {
         self.0.borrow().fault_on_seek
@@ -360,7 +374,10 @@ impl Read for LogSource {
         }
         s.reads += 1;
         if s.fault() {
-            return Err(injected());
+            return Err(match s.read_kind {
+                Some(k) => io::Error::new(k, "INJECTED fault (read)"),
+                None => injected(),
+            });
         }
         let pos = s.pos as usize;
         if pos >= s.bytes.len() {
